@@ -396,7 +396,14 @@ def offer_case(rng):
 
     def site():
         v = rng.choice(names)
-        k = rng.randrange(10)
+        k = rng.randrange(13)
+        if k == 10:
+            # dynamic content that is itself the message: the value is the message id, offered once
+            return '<p tal:content="%s" i18n:translate="">d</p>' % v
+        if k == 11:
+            return '<p tal:replace="%s" i18n:translate="">d</p>' % v
+        if k == 12:
+            return '<p tal:content="structure %s" i18n:translate="">d</p>' % v
         if k == 0:
             return '${%s}' % v
         if k == 1:
@@ -461,9 +468,45 @@ def correspondence(ctx):
     pipeline.run_cases(ctx, cases, what='i18n', with_tlog=True)
 
 
+def dynamic_message_cases(ctx):
+    """an element whose dynamic content is itself the message (tal:content / tal:replace with i18n:translate=""): the translation
+    function is called exactly once, with the value as it is (a message object, a number, a string), and what it returns appears"""
+    from chameleon import PageTemplate
+
+    class Msg:
+        def __init__(self, text):
+            self.text = text
+
+        def __str__(self):
+            return self.text
+    for stmt in ('tal:content="m"', 'tal:replace="m"', 'tal:content="structure m"', 'tal:content="text m"'):
+        for val, typ, shown in ((Msg('Guten Tag'), 'Msg', '[de: Guten Tag]'), ('greeting', 'str', '[de: greeting]'), (5, 'int', '5'), (Msg('a<b'), 'Msg', '[de: a&lt;b]')):
+            calls = []
+
+            def tr(msgid, domain=None, mapping=None, context=None, target_language=None, default=None):
+                calls.append((type(msgid).__name__, str(msgid)))
+                if isinstance(msgid, (Msg, str)):
+                    return '[de: %s]' % msgid
+                return msgid if default is None else default
+            src = '<div><p %s i18n:translate="">d</p></div>' % stmt
+            if 'structure' in stmt:
+                shown = shown.replace('&lt;', '<')
+            want = '<div><p>%s</p></div>' % shown if 'replace' not in stmt else '<div>%s</div>' % shown
+            ctx.count('evaluations')
+            try:
+                got = PageTemplate(src, translate=tr)(m=val)
+            except Exception as e:
+                got = {'exc': type(e).__name__, 'msg': str(e).split('\n')[0][:100]}
+            if got != want or calls != [(typ, str(val))]:
+                ctx.violation('dynamic content with i18n:translate="": the translation function is called once, with the value as message id, and its '
+                              'answer appears in the output', {'src': src, 'm': '%s(%r)' % (typ, str(val))},
+                              expected={'out': want, 'calls': [(typ, str(val))]}, actual={'out': got, 'calls': calls})
+
+
 def oracle(ctx):
     nt = 0
     hist = {}
+    dynamic_message_cases(ctx)
     for _ in range(ctx.budget(2500, 80000)):
         src, node, items = make(ctx.rng)
         fname = ctx.rng.choice(list(FUNCS))
